@@ -62,7 +62,7 @@ def classify(pre, ev):
 def run(res, tier, seed):
     quick = tier == "quick"
     wd = vlib.workdir("c12-%d" % os.getpid())
-    maxidx, maxlen, maxhist, maxsrc = (3, 4, 6, 2) if quick else (4, 5, 7, 3)
+    maxidx, maxlen, maxhist, maxsrc = (3, 4, 6, 2) if quick else (4, 5, 7, 2)
     # ---- MC
     for indexed in ("IndexedAll", "IndexedNone", "IndexedMixed"):
         cfg = os.path.join(wd, "mc_%s.cfg" % indexed)
